@@ -688,6 +688,6 @@ inst!(pur_copies_rev_n0, [props=C16 xprops=C14 tier=quick cfg=x86std t=1500 role
 #[cfg(not(vcfg_x86none))]
 inst!(pur_owned_fwd_n2, [props=C16 xprops=C14 tier=quick cfg=x86std t=1500 role=finder-owned-outlives-needle uw=@RK;@TWNEW;@TWOFF;with_ranker:6;oracle:6;@PP;clone:6;from:6], 3, purity::copies::<2, 4>(1, false, 4));
 #[cfg(not(vcfg_x86none))]
-inst!(pur_clone_fwd_n2, [props=C16 xprops=C14 tier=quick cfg=x86std t=1500 role=finder-clone uw=@RK;@TWNEW;@TWOFF;with_ranker:6;oracle:6;@PP;clone:6;from:6], 3, purity::copies::<2, 3>(1, false, 3));
+inst!(pur_clone_fwd_n2, [props=C16 xprops=C14 tier=thorough cfg=x86std t=1500 role=finder-clone uw=@RK;@TWNEW;@TWOFF;with_ranker:6;oracle:6;@PP;clone:6;from:6], 3, purity::copies::<2, 3>(1, false, 3));
 #[cfg(not(vcfg_x86none))]
 inst!(pur_clone_rev_n2, [props=C16 xprops=C14 tier=thorough cfg=x86std t=1500 role=finder-clone uw=@RK;@TWNEW;@TWOFF;with_ranker:6;oracle:6;@PP;clone:6;from:6], 3, purity::copies::<2, 4>(1, true, 1));
